@@ -50,6 +50,12 @@ def install(I):
             return ops.nonneg_len(ops.scalar_binop("-", x.stop, x.start))
         if isinstance(x, GenVal):
             return len(x.items)
+        if type(x).__name__ == "MapVal":
+            n = ctx.fresh("rows_on_map", "int")
+            ctx.facts.append(n.t >= 0)
+            return n
+        if type(x).__name__ == "TableVal":
+            return len(x.rows) if isinstance(x.rows, list) else x.rows.length
         raise PyRaise("TypeError", f"object of type {type(x).__name__} has no len()")
 
     @native("range")
@@ -607,6 +613,9 @@ def type_matches(v, t):
 # subscripting of builtin sequences
 
 
+SliceValT = None
+
+
 def norm_index(I, i, length):
     """Python index normalisation; returns int or z3 term; raises IndexError when provably out of range."""
     if isinstance(i, bool):
@@ -900,7 +909,10 @@ def builtin_attr(I, obj, name):
             return N(lambda ctx, x: obj.count(x))
     if isinstance(obj, dict):
         if name == "get":
-            return N(lambda ctx, k, d=None: obj.get(I.hashable(k), d))
+            def _dget(ctx, k, d=None):
+                kk = I.dict_find(obj, k)
+                return d if kk is I._MISSING else obj[kk]
+            return N(_dget)
         if name == "keys":
             return N(lambda ctx: list(obj.keys()))
         if name == "values":
@@ -925,7 +937,13 @@ def builtin_attr(I, obj, name):
                 raise PyRaise("KeyError", repr(k))
             return N(_pop)
         if name == "setdefault":
-            return N(lambda ctx, k, d=None: obj.setdefault(I.hashable(k), d))
+            def _setdefault(ctx, k, d=None):
+                kk = I.dict_find(obj, k)
+                if kk is I._MISSING:
+                    obj[I.hashable(k)] = d
+                    return d
+                return obj[kk]
+            return N(_setdefault)
     if isinstance(obj, OpenDict):
         if name == "get":
             def _get(ctx, k, d=None):
